@@ -437,12 +437,22 @@ def execute(case, result):
         result.count("translations_with_extra_construct_keywords")
     err = None
     translator = Translator()
+    import copy
+
+    untouched = copy.deepcopy(tree)
     try:
         out = translator.translate_hierarchy(tree, **kwargs)
     except ConfigurationError as e:
         err = e
     except Exception as e:
         return [("translate_hierarchy raised %r instead of a ConfigurationError" % (e,), None)]
+    try:
+        same = tree == untouched
+    except Exception:  # noqa: B902
+        same = False
+    if not same:
+        # the configuration that was handed in is the caller's: translation builds a new hierarchy beside it
+        return [("translate_hierarchy changed the structure it was given (definitions in it were replaced by what they construct)", None)]
     log = list(faclog.LOG)
     problems = []
     stale = [entry["name"] for entry in log if entry.get("stale")]
@@ -549,10 +559,19 @@ def execute_shared(case, tree, result):
     for n, path in nodes:
         occurrences.setdefault(n["nid"], []).append(path)
     kwargs = {"where": case["where"]} if case["where"] else {}
+    import copy
+
+    untouched = copy.deepcopy(tree)
     try:
         out = Translator().translate_hierarchy(tree, **kwargs)
     except Exception as e:  # noqa: B902
         return [("valid tree with a shared container rejected: %r" % (e,), None)]
+    try:
+        same = tree == untouched
+    except Exception:  # noqa: B902
+        same = False
+    if not same:
+        return [("translate_hierarchy changed the structure it was given (definitions in it were replaced by what they construct)", None)]
     calls = {}
     for entry in faclog.LOG:
         calls.setdefault(entry["kwargs"].get("nid"), []).append(entry["product"])
